@@ -98,8 +98,11 @@ func refParse(doc, format string) (*refcodec.Tree, error) {
 func checkEmit(rec *stats.Recorder, c valCase) (msg string, known string) {
 	t := typeByName(c.Type)
 	v := c.Value
-	rv := dyn.Build(S, t, v, dyn.BuildOpts{})
+	rv := dyn.Build(S, t, v, dyn.BuildOpts{EmptyAsNil: c.NilEmpty})
 	classes := append(labelsOf(t, v, c.Format), "direction=emit")
+	if c.NilEmpty {
+		classes = append(classes, "encoder_given_nil_collections")
+	}
 	if c.AfterFailure > 0 {
 		classes = append(classes, "after_failed_marshal")
 		failedMarshal(c.AfterFailure)
@@ -124,7 +127,7 @@ func checkEmit(rec *stats.Recorder, c valCase) (msg string, known string) {
 	if err != nil {
 		return fail("the reference parser rejects the emitted document: " + err.Error())
 	}
-	got, err := refcodec.FromTree(S, t, tree, refcodec.Opts{Bytes: refcodec.Protocol, ROR2: ror2})
+	got, err := refcodec.FromTree(S, t, tree, refcodec.Opts{Bytes: refcodec.Protocol, ROR2: ror2, Strict: true})
 	if err == nil {
 		if d := aval.Diff(v, got, ""); d == "" {
 			return "", ""
@@ -134,7 +137,7 @@ func checkEmit(rec *stats.Recorder, c valCase) (msg string, known string) {
 	}
 	// signature of KF-C03-bytes-utf8: some bytes/fixed leaf holds a byte >= 0x80 and the document is the UTF-8 reading
 	if hasHighBytes(v) && kf.Open("KF-C03-bytes-utf8") {
-		if got2, err2 := refcodec.FromTree(S, t, tree, refcodec.Opts{Bytes: refcodec.RawUTF8, ROR2: ror2, LenientFixed: true}); err2 == nil {
+		if got2, err2 := refcodec.FromTree(S, t, tree, refcodec.Opts{Bytes: refcodec.RawUTF8, ROR2: ror2, LenientFixed: true, Strict: true}); err2 == nil {
 			sv, _, _ := sanitizeUTF8(v)
 			if aval.Equal(v, got2) || (!ror2 && aval.Equal(sv, got2)) {
 				return "", "KF-C03-bytes-utf8"
@@ -271,17 +274,27 @@ func checkAccept(rec *stats.Recorder, c acceptCase) (msg string, known string) {
 	}
 	rec.Case(classes...)
 	rec.NonTrivial("accept/"+c.Format+"/"+c.Variation, "accept|"+c.Format+"|"+doc, func() any { c.Doc = doc; return c })
-	want := fillDefaults(t, v)
-	if c.Format == "query-fields" {
-		for _, f := range S.AllFields(S.Lookup(*t.Ref)) {
-			if _, set := v.Flds[f.Name]; !set && f.Default != nil {
-				delete(want.Flds, f.Name)
+	wantOf := func(v *aval.V) *aval.V {
+		want := fillDefaults(t, v)
+		if c.Format == "query-fields" {
+			for _, f := range S.AllFields(S.Lookup(*t.Ref)) {
+				if _, set := v.Flds[f.Name]; !set && f.Default != nil {
+					delete(want.Flds, f.Name)
+				}
 			}
 		}
+		return want
 	}
-	fail := func(what string) (string, string) {
+	want := wantOf(v)
+	fail := func(what string, got *aval.V) (string, string) {
+		// signature of KF-C03-bytes-utf8 in this direction: the document spells a byte >= 0x80 as the code point of that value,
+		// the library takes the UTF-8 bytes of that code point - the value it arrives at is v with every such byte doubled
+		// into its UTF-8 form; a fixed leaf that grew that way is rejected for its size
 		if hasHighBytes(v) && kf.Open("KF-C03-bytes-utf8") {
-			return "", "KF-C03-bytes-utf8"
+			ev, fixedGrew := utf8ReadingOfBytes(v)
+			if (got == nil && fixedGrew) || (got != nil && !fixedGrew && aval.Equal(wantOf(ev), got)) {
+				return "", "KF-C03-bytes-utf8"
+			}
 		}
 		return fmt.Sprintf("%s\n type=%s format=%s variation=%s\n document=%s\n value=%s", what, c.Type, c.Format, c.Variation, hx.Q(doc), want.Canon()), ""
 	}
@@ -291,13 +304,38 @@ func checkAccept(rec *stats.Recorder, c acceptCase) (msg string, known string) {
 		return fmt.Sprintf("decoder panicked on a conforming document: %v\n%s\n document=%s", pv, st, hx.Q(doc)), ""
 	}
 	if err != nil {
-		return fail("a conforming document was rejected: " + err.Error())
+		return fail("a conforming document was rejected: "+err.Error(), nil)
 	}
 	got := dyn.Extract(S, t, rv)
 	if d := aval.Diff(want, got, ""); d != "" {
-		return fail("a conforming document was decoded to a different value: " + d + "\n got=" + got.Canon())
+		return fail("a conforming document was decoded to a different value: "+d+"\n got="+got.Canon(), got)
 	}
 	return "", ""
+}
+
+// utf8ReadingOfBytes is v with every bytes / fixed leaf replaced by the UTF-8 encoding of its bytes taken as code points
+// U+0000-U+00FF; fixedGrew: a fixed leaf changed its length that way.
+func utf8ReadingOfBytes(v *aval.V) (out *aval.V, fixedGrew bool) {
+	out = v.Clone()
+	out.Walk(func(x *aval.V) {
+		if x.Kind == "bytes" || x.Kind == "fixed" {
+			b := x.Bytes()
+			rs := make([]rune, len(b))
+			for i, c := range b {
+				rs[i] = rune(c)
+			}
+			nb := []byte(string(rs))
+			if len(nb) != len(b) {
+				k := x.Kind
+				if k == "fixed" {
+					fixedGrew = true
+				}
+				*x = *aval.Bytes(nb)
+				x.Kind = k
+			}
+		}
+	})
+	return
 }
 
 func TestC03Emit(t *testing.T) {
